@@ -1,4 +1,5 @@
 use crate::common::Ctx;
+pub mod c18;
 pub mod c10;
 pub mod c19;
 pub mod c01;
@@ -19,6 +20,7 @@ pub fn dispatch(ctx: &mut Ctx) -> bool {
         "C17" => c17::run(ctx),
         "C19" => c19::run(ctx),
         "C10" => c10::run(ctx),
+        "C18" => c18::run(ctx),
         _ => return false,
     }
     true
